@@ -56,6 +56,7 @@ theorem test_judged (r : RuleM) (doc copy : PyVal) (t : RuleTestR) (copy' : PyVa
     (h : r.test doc copy = .ok (t, copy')) :
     (r.cast = [] → t.data = doc ∧ copy' = copy) ∧ (r.cast ≠ [] → t.data = copy') := by
   unfold RuleM.test at h
+  rw [castSource_eq] at h
   simp only [bind, Except.bind, pure, Except.pure] at h
   split at h
   · cases h
